@@ -19,18 +19,28 @@ EXPLANATION = (
     "local (value at an index tuple), so the index each factor of the 8-index operator is "
     "attached to is part of the model. Coq proves for ALL backgrounds, particles, collision "
     "arrays, grid sizes, both derivative modes and all basis matrices: the source is linear "
-    "and local in the three profile derivatives and vanishes for a homogeneous background; "
-    "with a non-singular operator the solution is then zero; the assembled operator is a sum "
-    "of three tensor products with row-only prefactors (T^2 of the collision term sits at the "
-    "grid point) and therefore factorises as (cardinal operator) x (basis matrices); with "
-    "mathcomp matrices over any field: a basis change maps the solution to P^-1 x, uniquely, "
-    "and leaves the represented function and every linear functional of it (the Deltas) "
-    "unchanged. AST facts checked by theorems: in both derivative modes the three "
-    "derivatives are derivatives of T, v, m^2 respectively; the finite-difference "
-    "cross-check mutates a DEEP copy of the solver (heap model: owner unobservably "
-    "changed). The generated kernels are compared with the arrays the running code builds "
-    "by certified interval evaluation, and the property itself is evaluated on the real "
-    "solver with synthetic collision tensors.")
+    "and local in the three profile derivatives and vanishes for a homogeneous background "
+    "(a constant profile has zero derivative: C16's cardinal derivative matrix / any matrix "
+    "with zero row sums); with a left inverse of the operator the solution is then zero; the "
+    "source is minus the generated Liouville coefficients applied to the derivatives of "
+    "f_eq for arbitrary differentiable profiles, with gamma_w^2 (1 - vw^2) = 1 and explicit "
+    "K1, K2; the assembled operator is a sum of three tensor products with row-only "
+    "prefactors (T^2 of the collision term sits at the grid point) and factorises as "
+    "(cardinal operator) x (basis matrices); COMPOSED for the generated operator on the "
+    "index set (particle, chi, rz, rp): if the cardinal operator has a left inverse, the "
+    "solutions x (cardinal) and y (any basis) of the two systems with the same generated "
+    "source satisfy x = (X x Y x Z) y, i.e. they are the same function, and every linear "
+    "functional agrees (hypotheses jointly satisfiable by the generated operator at every "
+    "size). AST facts checked by theorems (fail closed): both derivative modes differentiate "
+    "the right profile along chi and cut [1:-1]; solveBoltzmannEquations is build -> "
+    "np.linalg.solve(operator, source) -> C-order reshape to the flattened axes; getDeltas / "
+    "checkLinearization / estimateTruncationError use deltaF only through a Polynomial in "
+    "the solver's bases or times an array built by buildLinearEquations; the FD cross-check "
+    "and setBackground work on deep copies, no class reachable from the solver defines a "
+    "copy hook (heap model with collision data AND background: owner unobservably changed, "
+    "copy = the FD solver of the same problem). Generated kernels vs the running code by "
+    "certified interval evaluation; the property is evaluated on the real solver with "
+    "synthetic collision tensors, comparing EVERY output of getDeltas across bases.")
 
 BASES = ("Cardinal", "Chebyshev")
 
@@ -46,15 +56,24 @@ def wg():
     return WallGo, Grid, Polynomial, CollisionArray
 
 
-def make_particles(stats, couplings):
+def msq_of_fields(c, f0, f1=None):
+    """m^2 of a particle with coupling c as a function of the field value(s)"""
+    return c * f0 ** 2 if f1 is None else c * (f0 ** 2 + 0.5 * f1 ** 2)
+
+
+def make_particles(stats, couplings, nfields=1):
     WallGo = wg()[0]
     out = []
     for i, (st, c) in enumerate(zip(stats, couplings)):
-        out.append(WallGo.Particle(
-            name="p%d" % i, index=i,
-            msqVacuum=(lambda c: (lambda phi: c * phi.getField(0) ** 2))(c),
-            msqDerivative=(lambda c: (lambda phi: 2 * c * phi.getField(0)))(c),
-            statistics=st, totalDOFs=12))
+        if nfields == 1:
+            msq = (lambda c: (lambda phi: msq_of_fields(c, phi.getField(0))))(c)
+            dmsq = (lambda c: (lambda phi: 2 * c * phi.getField(0)))(c)
+        else:
+            msq = (lambda c: (lambda phi: msq_of_fields(c, phi.getField(0), phi.getField(1))))(c)
+            dmsq = (lambda c: (lambda phi: np.transpose([2 * c * phi.getField(0),
+                                                         c * phi.getField(1)])))(c)
+        out.append(WallGo.Particle(name="p%d" % i, index=i, msqVacuum=msq, msqDerivative=dmsq,
+                                   statistics=st, totalDOFs=12))
     return out
 
 
@@ -72,41 +91,66 @@ def make_collision(grid, ps, seed, scale, offdiag):
     return CollisionArray.newFromPolynomial(poly, ps), data
 
 
+def profiles(c):
+    """analytic wall-frame profiles of a case: v(xi), T(xi), [field_k(xi)]"""
+    prof = lambda x: 0.5 * (1 + np.tanh(x / c["width"]))
+    v = lambda x: c["v0"] + c["av"] * (prof(x) - 0.5)
+    T = lambda x: c["T0"] * (1 + c["aT"] * (prof(x) - 0.5))
+    fs = [lambda x: c["f0"] * (1 - c["af"] * prof(x))]
+    if c.get("nfields", 1) == 2:
+        fs.append(lambda x: 0.6 * c["f0"] * (1 - 0.8 * c["af"] * prof(x)))
+    return v, T, fs
+
+
 def make_background(grid, c):
     WallGo = wg()[0]
     xi = np.concatenate(([-np.inf], grid.xiValues, [np.inf]))
-    prof = 0.5 * (1 + np.tanh(xi / c["width"]))
-    v = c["v0"] + c["av"] * (prof - 0.5)
-    T = c["T0"] * (1 + c["aT"] * (prof - 0.5))
-    field = c["f0"] * (1 - c["af"] * prof)
+    vf, Tf, fs = profiles(c)
+    v, T = vf(xi), Tf(xi)
+    fields = np.transpose([f(xi) for f in fs])
     return WallGo.BoltzmannBackground(
-        velocityMid=0.5 * (v[0] + v[-1]), velocityProfile=v,
-        fieldProfiles=WallGo.Fields(field[:, None]), temperatureProfile=T)
+        velocityMid=0.5 * (v[0] + v[-1]) + c.get("dvmid", 0.0), velocityProfile=v,
+        fieldProfiles=WallGo.Fields(fields), temperatureProfile=T)
 
 
-def make_solver(grid, ps, bg, coll_card, bM, bN, mode="Spectral"):
+def make_solver(grid, ps, bg, coll_card, bM, bN, mode="Spectral", cmult=1.0, order=0):
+    """order: permutation of the setter calls (they must commute)"""
     WallGo = wg()[0]
-    s = WallGo.BoltzmannSolver(grid, bM, bN, mode)
-    s.updateParticleList(ps)
-    s.setBackground(bg)
+    s = WallGo.BoltzmannSolver(grid, bM, bN, mode, cmult) if cmult != 1.0 else \
+        WallGo.BoltzmannSolver(grid, bM, bN, mode)
     c = copy.deepcopy(coll_card)
     c.changeBasis(bN)
-    s.setCollisionArray(c)
+    steps = [lambda: s.updateParticleList(ps), lambda: s.setBackground(bg),
+             lambda: s.setCollisionArray(c)]
+    for k in ((0, 1, 2), (2, 1, 0), (1, 2, 0))[order % 3]:
+        steps[k]()
     return s
 
 
-def setup(case):
+def make_grid(case, M=None):
     _, Grid, _, _ = wg()
-    grid = Grid(case["M"], case["N"], case["Lxi"], case["T0"])
-    ps = make_particles(case["stats"], case["couplings"])
+    M = M or case["M"]
+    kind = case.get("grid", "Grid")
+    if kind == "Grid3Scales":
+        from WallGo.grid3Scales import Grid3Scales
+        L = case["Lxi"]
+        return Grid3Scales(M, case["N"], 4 * L, 6 * L, L, case["T0"], 0.5, 0.1)
+    if kind == "Uniform":
+        return Grid(M, case["N"], case["Lxi"], case["T0"], spacing="Uniform")
+    return Grid(M, case["N"], case["Lxi"], case["T0"])
+
+
+def setup(case):
+    grid = make_grid(case)
+    ps = make_particles(case["stats"], case["couplings"], case.get("nfields", 1))
     coll, data = make_collision(grid, ps, case["cseed"], case["cscale"], case["coffdiag"])
     return grid, ps, coll, data
 
 
-def rand_case(rng, M, N, nP, kind):
+def rand_case(rng, M, N, nP, kind, **over):
     amp = dict(T=(1, 0, 0), v=(0, 1, 0), f=(0, 0, 1), all=(1, 1, 1), hom=(0, 0, 0))[kind]
     Lxi = rng.choice([0.5, 1.0, 2.0])
-    return dict(
+    c = dict(
         M=M, N=N, Lxi=Lxi, T0=rng.choice([50.0, 100.0]),
         stats=[rng.choice(["Fermion", "Boson"]) for _ in range(nP)],
         couplings=[round(rng.uniform(0.2, 1.2), 3) for _ in range(nP)],
@@ -118,6 +162,13 @@ def rand_case(rng, M, N, nP, kind):
         aT=amp[0] * round(rng.uniform(0.03, 0.15), 3),
         av=amp[1] * round(rng.uniform(0.02, 0.1), 3),
         af=amp[2] * round(rng.uniform(0.5, 1.0), 3))
+    # variants (drawn after the base case so that the base stream is unchanged)
+    var = dict(cmult=rng.choice([0.5, 3.0]), v0=round(rng.uniform(0.2, 0.6), 3))
+    for k, v in over.items():
+        c[k] = var[k] if v is None else v
+    if c.get("massless"):
+        c["couplings"][0] = 0.0
+    return c
 
 
 def deltas_array(res):
@@ -135,12 +186,33 @@ def rel(a, b):
 # direct validation
 
 TOL = 1e-9
+TOL_RES = 1e-11     # residual of a dense double-precision solve (observed <= 5e-15, cond <= 1e3)
 
 
-def check_family(case, report):
+def results_outputs(res, grid, bM, bN, pts):
+    """every output of getDeltas as basis independent numbers"""
+    _, _, Polynomial, _ = wg()
+    poly = Polynomial(np.array(res.deltaF), grid, ("Array", bM, bN, bN),
+                      ("Array", "z", "pz", "pp"), False)
+    return dict(deltaF=np.asarray(poly.evaluate(pts, (1, 2, 3))), Deltas=deltas_array(res),
+                truncationError=np.asarray(float(res.truncationError)),
+                criterion1=np.asarray(res.linearizationCriterion1, dtype=float),
+                criterion2=np.asarray(res.linearizationCriterion2, dtype=float))
+
+
+def compare_outputs(out, ref, tol, what, report, replay):
+    for k in ("deltaF", "Deltas", "truncationError", "criterion1", "criterion2"):
+        d = rel(out[k], ref[k])
+        if not d < tol:
+            report("%s of getDeltas differs by %.2e %s" % (k, d, what),
+                   dict(replay, output=k, diff=d), "basis-dependence:%s" % k)
+
+
+def check_family(case, report, bases=None, light=False):
     """all four basis combinations (+ finite-difference mode) for one physical problem"""
     _, _, Polynomial, _ = wg()
     grid, ps, coll, data = setup(case)
+    cm = case.get("cmult", 1.0)
     bg = make_background(grid, case)
     hom = dict(case, aT=0.0, av=0.0, af=0.0)
     bg_hom = make_background(grid, hom)
@@ -148,54 +220,62 @@ def check_family(case, report):
     pts = prng.uniform(-0.97, 0.97, size=(3, 25))
     ref = None
     ops = {}
+    combos = bases or [(bM, bN) for bM in BASES for bN in BASES]
     # natural size of deltaF for O(0.1) gradients in this setup (reference for "zero")
     refbg = make_background(grid, dict(case, aT=0.1, av=0.05, af=1.0))
-    scale_dF = float(np.abs(make_solver(grid, ps, refbg, coll, "Cardinal", "Cardinal")
+    scale_dF = float(np.abs(make_solver(grid, ps, refbg, coll, "Cardinal", "Cardinal", cmult=cm)
                             .solveBoltzmannEquations()).max())
-    for bM in BASES:
-        for bN in BASES:
-            s = make_solver(grid, ps, bg, coll, bM, bN)
+    for nb, (bM, bN) in enumerate(combos):
+        if True:
+            s = make_solver(grid, ps, bg, coll, bM, bN, cmult=cm, order=nb)
             op, src, _, _ = s.buildLinearEquations()
             dF = s.solveBoltzmannEquations()
             ops[(bM, bN)] = op
+            if dF.dtype != np.float64 or op.dtype != np.float64:
+                report("solution / operator is not double precision (%s, %s)" % (dF.dtype, op.dtype),
+                       dict(check="family", case=case, basisM=bM, basisN=bN), "dtype")
             r = float(np.linalg.norm(op @ dF.flatten() - src) / (np.linalg.norm(src) + 1e-300))
-            if case["kind"] != "hom" and not r < TOL:
+            if case["kind"] != "hom" and not r < TOL_RES:
                 report("residual of the assembled system |A x - s|/|s| = %.2e (basisM=%s "
-                       "basisN=%s)" % (r, bM, bN), dict(check="family", case=case, basisM=bM,
-                                                        basisN=bN, residual=r), "residual")
-            poly = Polynomial(np.array(dF), grid, ("Array", bM, bN, bN),
-                              ("Array", "z", "pz", "pp"), False)
-            vals = poly.evaluate(pts, (1, 2, 3))
-            dl = deltas_array(s.getDeltas(dF))
-            if ref is None:
-                ref = (vals, dl)
-            else:
-                dv, dd = rel(vals, ref[0]), rel(dl, ref[1])
-                if case["kind"] != "hom" and not dv < TOL:
-                    report("deltaF at 25 off-grid phase-space points differs by %.2e between "
-                           "(%s,%s) and (Cardinal,Cardinal)" % (dv, bM, bN),
-                           dict(check="family", case=case, basisM=bM, basisN=bN, diff=dv),
-                           "basis-dependence:deltaF")
-                if case["kind"] != "hom" and not dd < TOL:
-                    report("Deltas differ by %.2e between (%s,%s) and (Cardinal,Cardinal)" % (
-                        dd, bM, bN), dict(check="family", case=case, basisM=bM, basisN=bN,
-                                          diff=dd), "basis-dependence:Deltas")
+                       "basisN=%s, %d unknowns)" % (r, bM, bN, len(src)),
+                       dict(check="family", case=case, basisM=bM, basisN=bN, residual=r),
+                       "residual")
+            rp = dict(check="family", case=case, basisM=bM, basisN=bN)
+            dF_in = np.array(dF, copy=True)
+            res1 = s.getDeltas(dF)
+            if not np.array_equal(dF, dF_in):
+                report("getDeltas(deltaF) modified the caller's deltaF array (by %.2e)" % rel(
+                    dF, dF_in), rp, "getDeltas:mutates-argument")
+            res0 = s.getDeltas()
+            if case["kind"] != "hom":
+                o1 = results_outputs(res1, grid, bM, bN, pts)
+                o0 = results_outputs(res0, grid, bM, bN, pts)
+                compare_outputs(o0, o1, 1e-12, "between getDeltas() and getDeltas(its own "
+                                "solution) (basisM=%s basisN=%s)" % (bM, bN), report, rp)
+                if ref is None:
+                    ref = o1
+                else:
+                    compare_outputs(o1, ref, TOL, "between (%s,%s) and (%s,%s)" % (
+                        (bM, bN) + combos[0]), report, rp)
+            if light:
+                continue
             # homogeneous background: no deviation
-            sh = make_solver(grid, ps, bg_hom, coll, bM, bN)
+            sh = make_solver(grid, ps, bg_hom, coll, bM, bN, cmult=cm)
             dFh = sh.solveBoltzmannEquations()
-            _, srch, _, _ = sh.buildLinearEquations()
             if not float(np.abs(dFh).max()) <= 1e-9 * scale_dF:
                 report("homogeneous background gives deltaF up to %.2e (basisM=%s basisN=%s)"
                        % (float(np.abs(dFh).max()), bM, bN),
                        dict(check="family", case=hom, basisM=bM, basisN=bN,
                             max_deltaF=float(np.abs(dFh).max())), "homogeneous-nonzero")
+    if light:
+        return
     # finite-difference mode: residual and homogeneous
     for b, lab in ((bg, "var"), (bg_hom, "hom")):
-        s = make_solver(grid, ps, b, coll, "Cardinal", "Cardinal", "Finite Difference")
+        s = make_solver(grid, ps, b, coll, "Cardinal", "Cardinal", "Finite Difference", cmult=cm)
         op, src, _, _ = s.buildLinearEquations()
         dF = s.solveBoltzmannEquations()
         r = float(np.linalg.norm(op @ dF.flatten() - src) / (np.linalg.norm(src) + 1e-300))
-        if lab == "var" and case["kind"] != "hom" and not r < TOL:
+        if lab == "var" and case["kind"] != "hom" and not r < TOL_RES:
             report("finite-difference mode: residual %.2e" % r,
                    dict(check="family", case=case, mode="FD", residual=r), "residual")
         if lab == "hom" and not float(np.abs(dF).max()) <= 1e-9 * scale_dF:
@@ -210,8 +290,26 @@ def check_family(case, report):
         if not np.abs(tp.matrix("Cardinal", d) - np.eye(m if d == "z" else n)).max() < 1e-13:
             report("Polynomial.matrix('Cardinal','%s') is not the identity" % d,
                    dict(check="family", case=case, direction=d), "assumption:cardinal-identity")
+    # hypotheses of constant_profile_has_zero_derivative: rows of the derivative matrices the two
+    # modes apply to the full profiles sum to zero
+    import findiff
+    chiF, rzF, _ = grid.getCompactCoordinates(endpoints=True)
+    Dfd = findiff.FinDiff((0, chiF, 1), acc=2).matrix((grid.M + 1,)).toarray()
+    Dsp = tp.derivMatrix("Cardinal", "z", True)
+    for nm, D in (("findiff", Dfd), ("spectral", Dsp)):
+        rs = float(np.abs(D.sum(axis=1)).max() / np.abs(D).max())
+        if not rs < 1e-11:
+            report("rows of the %s d/dchi matrix (with end points) do not sum to zero: %.2e" % (
+                nm, rs), dict(check="family", case=case, matrix=nm), "assumption:rows-sum-zero")
+    for d, bs in (("z", "Chebyshev"), ("pz", "Chebyshev"), ("pp", "Chebyshev")):
+        cd = float(np.linalg.cond(tp.matrix(bs, d)))
+        if not cd < 1e8:
+            report("matrix(%s,%s) is numerically singular: cond %.2e" % (bs, d, cd),
+                   dict(check="family", case=case, direction=d), "assumption:basis-invertible")
     for bM in BASES:
         for bN in BASES:
+            if (bM, bN) not in ops:
+                continue
             X, Y, Z = tp.matrix(bM, "z"), tp.matrix(bN, "pz"), tp.matrix(bN, "pp")
             for d, bs, Mx in (("z", bM, X), ("pz", bN, Y)):
                 e = np.abs(tp.derivMatrix("Cardinal", d)[1:-1] @ Mx -
@@ -250,8 +348,8 @@ def fd_pair(case, M):
     finite-difference and the spectral rz-derivative are exact: the momentum grid is not
     refined here, only the spatial one."""
     WallGo, Grid, _, CollisionArray = wg()
-    grid = Grid(M, case["N"], case["Lxi"], case["T0"])
-    ps = make_particles(case["stats"], case["couplings"])
+    grid = make_grid(case, M)
+    ps = make_particles(case["stats"], case["couplings"], case.get("nfields", 1))
     bg = make_background(grid, case)
     chi, rz, rp = grid.getCompactCoordinates(endpoints=False)
     P = len(ps)
@@ -288,14 +386,21 @@ def check_fd(case, report):
     return es, el
 
 
-def check_physics(case, report, M=40):
-    """source == -(K1 d f_eq/d chi - K2 d f_eq/d rz) with K1, K2 read off the Liouville array
-    the code builds, f_eq = the code's _feq composed with the ANALYTIC profiles, derivatives of
-    f_eq by central differences (mirrors theorem source_is_minus_liouville_of_equilibrium)"""
+def check_physics(case, report, M=40, mode="Spectral", tol=5e-3):
+    """The source and the Liouville operator against the ANALYTIC linearised Boltzmann equation
+    (mirrors source_is_minus_liouville_of_equilibrium, gammaWall_is_lorentz,
+    liouville_coefficients_explicit):
+      K1 = dchi/dxi gamma_w (pz - vw E),  K2 = dchi/dxi drz/dpz gamma_w/2 d m^2/dchi,
+      gamma_w = 1/sqrt(1 - vw^2),  source = -(K1 d f_eq/dchi - K2 d f_eq/drz),
+    with f_eq = the code's _feq composed with the analytic profiles (derivatives of f_eq by
+    central differences).  K1, K2 are ALSO read off the Liouville array the code builds and must
+    agree with the formulas.  tol: spectral truncation error of a resolved tanh wall at this M
+    (observed <= 1.5e-3 at M = 40 for widths 0.7..1.5 Lxi); 2nd order for finite differences."""
     WallGo, Grid, Polynomial, CollisionArray = wg()
-    grid = Grid(M, case["N"], case["Lxi"], case["T0"])
-    ps = make_particles(case["stats"], case["couplings"])
-    s = WallGo.BoltzmannSolver(grid, "Cardinal", "Cardinal", "Spectral")
+    grid = make_grid(case, M)
+    nf = case.get("nfields", 1)
+    ps = make_particles(case["stats"], case["couplings"], nf)
+    s = WallGo.BoltzmannSolver(grid, "Cardinal", "Cardinal", mode)
     s.updateParticleList(ps)
     s.setBackground(make_background(grid, case))
     ca = CollisionArray(grid, "Cardinal", ps)
@@ -304,53 +409,122 @@ def check_physics(case, report, M=40):
     _, src, li, _ = s.buildLinearEquations()
     P, m, n = len(ps), M - 1, case["N"] - 1
     src = src.reshape(P, m, n, n)
-    prof = lambda x: 0.5 * (1 + np.tanh(x / case["width"]))
-    vwall_frame = lambda x: case["v0"] + case["av"] * (prof(x) - 0.5)
-    Tf = lambda x: case["T0"] * (1 + case["aT"] * (prof(x) - 0.5))
-    ff = lambda x: case["f0"] * (1 - case["af"] * prof(x))
-    vmid = 0.5 * (vwall_frame(-np.inf) + vwall_frame(np.inf))
+    vwall_frame, Tf, fs = profiles(case)
+    vmid = 0.5 * (vwall_frame(-np.inf) + vwall_frame(np.inf)) + case.get("dvmid", 0.0)
     boost = lambda v, u: (v - u) / (1 - u * v)
     vf = lambda x: boost(vwall_frame(x), vmid)
+    vw = boost(0.0, vmid)
+    gw = 1 / np.sqrt(1 - vw ** 2)
     xi, pz, pp = grid.getCoordinates()
     if not (np.abs(vf(xi) - s.background.velocityProfile[1:-1]).max() < 1e-12 and
-            abs(boost(0.0, vmid) - s.background.velocityWall) < 1e-12):
+            abs(vw - s.background.velocityWall) < 1e-12):
         report("setBackground does not hold the profile boosted by velocityMid",
-               dict(check="physics", case=case), "physics:boost")
+               dict(check="physics", case=case, mode=mode), "physics:boost")
         return None
     stat = [-1 if p.statistics == "Fermion" else 1 for p in ps]
+    msq = lambda a, x_: msq_of_fields(case["couplings"][a], *[f(x_) for f in fs])
 
     def feq(a, x_, p_, q_):
-        E = np.sqrt(case["couplings"][a] * ff(x_) ** 2 + p_ ** 2 + q_ ** 2)
+        E = np.sqrt(msq(a, x_) + p_ ** 2 + q_ ** 2)
         g = 1 / np.sqrt(1 - vf(x_) ** 2)
         return WallGo.BoltzmannSolver._feq(g * (E - vf(x_) * p_) / Tf(x_), stat[a])
     dxidchi, dpzdrz, _ = grid.getCompactificationDerivatives()
-    tp = Polynomial(np.ones(M + 1), grid, "Cardinal", "z", True)
-    Dchi = tp.derivMatrix("Cardinal", "z")[1:-1]
-    Drz = tp.derivMatrix("Cardinal", "pz")[1:-1]
+    if mode == "Spectral":
+        tp = Polynomial(np.ones(M + 1), grid, "Cardinal", "z", True)
+        Dchi = tp.derivMatrix("Cardinal", "z")[1:-1]
+        Drz = tp.derivMatrix("Cardinal", "pz")[1:-1]
+    else:
+        import findiff
+        chiF, rzF, _ = grid.getCompactCoordinates(endpoints=True)
+        Dchi = findiff.FinDiff((0, chiF, 1), acc=2).matrix((M + 1,)).toarray()[1:-1, 1:-1]
+        Drz = findiff.FinDiff((0, rzF, 1), acc=2).matrix((case["N"] + 1,)).toarray()[1:-1, 1:-1]
     want = np.zeros_like(src)
-    h, hp = 1e-5, 1e-5 * case["T0"]
+    k1c, k1a, k2c, k2a = (np.zeros_like(src) for _ in range(4))
+    h, hp = 1e-5 * case["width"], 1e-5 * case["T0"]
     for a in range(P):
         for al in range(m):
+            dmsq = (msq(a, xi[al] + h) - msq(a, xi[al] - h)) / (2 * h)      # d m^2 / d xi
             for be in range(n):
                 for ga in range(n):
-                    i, j = (al + 1) % m, (be + 1) % n
-                    K1 = li[a, al, be, ga, a, i, be, ga] / Dchi[al, i]
-                    K2 = -li[a, al, be, ga, a, al, j, ga] / Drz[be, j]
+                    i = al + 1 if al + 1 < m else al - 1      # a neighbour: nonzero for both
+                    j = be + 1 if be + 1 < n else be - 1      # derivative matrices
+                    E = np.sqrt(msq(a, xi[al]) + pz[be] ** 2 + pp[ga] ** 2)
+                    k1c[a, al, be, ga] = li[a, al, be, ga, a, i, be, ga] / Dchi[al, i]
+                    k2c[a, al, be, ga] = -li[a, al, be, ga, a, al, j, ga] / Drz[be, j]
+                    K1 = gw * (pz[be] - vw * E) / dxidchi[al]
+                    K2 = (gw / 2) * dmsq / dpzdrz[be]     # dchi/dxi drz/dpz gw/2 dm2/dchi
+                    k1a[a, al, be, ga], k2a[a, al, be, ga] = K1, K2
                     dfx = (feq(a, xi[al] + h, pz[be], pp[ga]) -
                            feq(a, xi[al] - h, pz[be], pp[ga])) / (2 * h)
                     dfp = (feq(a, xi[al], pz[be] + hp, pp[ga]) -
                            feq(a, xi[al], pz[be] - hp, pp[ga])) / (2 * hp)
                     want[a, al, be, ga] = -(K1 * dfx * dxidchi[al] - K2 * dfp * dpzdrz[be])
+    rp = dict(check="physics", case=case, M=M, mode=mode, tol=tol)
+    e1 = rel(k1c, k1a)
+    if not e1 < 1e-9:
+        w = np.unravel_index(np.argmax(np.abs(k1c - k1a)), src.shape)
+        report("coefficient of d/dchi in the Liouville operator differs from dchi/dxi gamma_w (pz "
+               "- vw E), gamma_w = 1/sqrt(1-vw^2), by %.2e; entry %s: code %.6g, formula %.6g" % (
+                   e1, tuple(int(x) for x in w), k1c[w], k1a[w]), dict(rp, diff=e1),
+               "physics:liouville-K1")
+    e2 = rel(k2c, k2a) if np.abs(k2a).max() > 0 else float(np.abs(k2c).max())
+    if not e2 < tol:
+        w = np.unravel_index(np.argmax(np.abs(k2c - k2a)), src.shape)
+        report("coefficient of d/drz in the Liouville operator differs from dchi/dxi drz/dpz "
+               "gamma_w/2 dm^2/dchi by %.2e; entry %s: code %.6g, formula %.6g" % (
+                   e2, tuple(int(x) for x in w), k2c[w], k2a[w]), dict(rp, diff=e2),
+               "physics:liouville-K2")
     e = rel(src, want)
-    if not e < 5e-3:
+    if not e < tol:
         w = np.unravel_index(np.argmax(np.abs(src - want)), src.shape)
-        report("source differs from -Liouville[f_eq] (analytic profiles, M=%d) by %.2e; worst "
-               "entry %s: code %.6g, expected %.6g" % (M, e, tuple(int(x) for x in w),
-                                                       src[w], want[w]),
-               dict(check="physics", case=case, M=M, diff=e, entry=[int(x) for x in w],
-                    code=float(src[w]), expected=float(want[w])),
+        report("source differs from -Liouville[f_eq] (analytic profiles and coefficients, %s, "
+               "M=%d) by %.2e; worst entry %s: code %.6g, expected %.6g" % (
+                   mode, M, e, tuple(int(x) for x in w), src[w], want[w]),
+               dict(rp, diff=e, entry=[int(x) for x in w], code=float(src[w]),
+                    expected=float(want[w])),
                "physics:source-vs-liouville-feq:%s" % case["kind"])
-    return e
+    return max(e, e2)
+
+
+def check_production(case, report, bases):
+    """production size (thousands of unknowns): residual and every output of getDeltas"""
+    check_family(case, report, bases=bases, light=True)
+
+
+def check_reuse(case, report):
+    """one solver object taken through bg1 -> homogeneous -> bg2 -> bg1 (and a changed
+    collisionMultiplier-free re-set of particles / collision array) against fresh solvers"""
+    grid, ps, coll, _ = setup(case)
+    cm = case.get("cmult", 1.0)
+    c2 = dict(case, aT=0.5 * case["aT"] + 0.02, av=-0.7 * case["av"], af=0.6 * case["af"],
+              width=1.3 * case["width"])
+    bg1, bg2 = make_background(grid, case), make_background(grid, c2)
+    bgh = make_background(grid, dict(case, aT=0.0, av=0.0, af=0.0))
+    for bN in BASES:
+        fresh1 = make_solver(grid, ps, bg1, coll, "Cardinal", bN, cmult=cm).getDeltas()
+        fresh2 = make_solver(grid, ps, bg2, coll, "Cardinal", bN, cmult=cm, order=1).getDeltas()
+        s = make_solver(grid, ps, bg1, coll, "Cardinal", bN, cmult=cm, order=2)
+        a1 = s.getDeltas()
+        s.setBackground(bgh)
+        ah = s.getDeltas()
+        s.setBackground(bg2)
+        a2 = s.getDeltas()
+        s.updateParticleList(ps)
+        s.setBackground(bg1)
+        a1b = s.getDeltas()
+        rp = dict(check="reuse", case=case, basisN=bN)
+        for lab, got, want in (("first background", a1, fresh1), ("second background", a2, fresh2),
+                               ("first background again", a1b, fresh1)):
+            d = max(rel(got.deltaF, want.deltaF), rel(deltas_array(got), deltas_array(want)),
+                    rel(got.linearizationCriterion2, want.linearizationCriterion2),
+                    abs(got.truncationError - want.truncationError))
+            if not d == 0.0:
+                report("re-used solver (%s, basisN=%s) differs from a fresh solver by %.2e" % (
+                    lab, bN, d), dict(rp, stage=lab, diff=d), "history:reuse")
+        sc = float(np.abs(fresh1.deltaF).max())
+        if not float(np.abs(ah.deltaF).max()) <= 1e-9 * sc:
+            report("re-used solver: homogeneous background after a varying one gives deltaF up "
+                   "to %.2e" % float(np.abs(ah.deltaF).max()), rp, "history:reuse")
 
 
 def check_background(case, report):
@@ -360,10 +534,10 @@ def check_background(case, report):
     bg = make_background(grid, case)
     snap = (np.array(bg.velocityProfile, copy=True), float(bg.velocityWall),
             np.array(bg.temperatureProfile, copy=True), np.array(bg.fieldProfiles, copy=True))
-    s1 = make_solver(grid, ps, bg, coll, "Cardinal", "Cardinal")
+    s1 = make_solver(grid, ps, bg, coll, "Cardinal", "Cardinal", cmult=case.get("cmult", 1.0))
     v1 = np.array(s1.background.velocityProfile, copy=True)
     d1 = s1.solveBoltzmannEquations()
-    s2 = make_solver(grid, ps, bg, coll, "Cardinal", "Cardinal")
+    s2 = make_solver(grid, ps, bg, coll, "Cardinal", "Cardinal", cmult=case.get("cmult", 1.0))
     s1.setBackground(bg)
     d1b = s1.solveBoltzmannEquations()
     d2 = s2.solveBoltzmannEquations()
@@ -389,7 +563,7 @@ def check_history(case, report):
     grid, ps, coll, _ = setup(case)
     bg = make_background(grid, case)
     for bN in BASES:
-        s = make_solver(grid, ps, bg, coll, "Cardinal", bN)
+        s = make_solver(grid, ps, bg, coll, "Cardinal", bN, cmult=case.get("cmult", 1.0))
         eom = object.__new__(EOM)
         eom.boltzmannSolver = s
         first = s.getDeltas()
@@ -401,7 +575,10 @@ def check_history(case, report):
         after = (s.derivatives, s.basisM, s.basisN,
                  tuple(s.collisionArray.polynomialData.basis), s.collisionArray[:].copy())
         d = rel(second.deltaF, first.deltaF)
-        dd = rel(deltas_array(second), deltas_array(first))
+        dd = max(rel(deltas_array(second), deltas_array(first)),
+                 rel(second.linearizationCriterion1, first.linearizationCriterion1),
+                 rel(second.linearizationCriterion2, first.linearizationCriterion2),
+                 abs(second.truncationError - first.truncationError))
         same_state = before[:4] == after[:4] and np.array_equal(before[4], after[4])
         if not (d == 0.0 and dd == 0.0 and same_state):
             report("spectral solution of a (Cardinal,%s) solver changed after "
@@ -414,8 +591,11 @@ def check_history(case, report):
             report("finite-difference cross-check is not repeatable",
                    dict(check="history", case=case, basisN=bN), "history:fd-repeat")
         # the FD cross-check really is a finite-difference solve of the same problem
-        sfd = make_solver(grid, ps, bg, coll, "Cardinal", "Cardinal", "Finite Difference")
-        if not rel(fd1.deltaF, sfd.solveBoltzmannEquations()) < TOL:
+        sfd = make_solver(grid, ps, bg, coll, "Cardinal", "Cardinal", "Finite Difference",
+                          cmult=case.get("cmult", 1.0))
+        fdref = sfd.getDeltas()
+        if not (rel(fd1.deltaF, fdref.deltaF) < TOL and
+                rel(deltas_array(fd1), deltas_array(fdref)) < TOL):
             report("EOM.getBoltzmannFiniteDifference() differs from an independently built "
                    "finite-difference solver", dict(check="history", case=case, basisN=bN),
                    "history:fd-value")
@@ -543,15 +723,17 @@ def run(ctx):
         e_src = vlib.read_src("equationOfMotion.py")
         c_src = vlib.read_src("collisionArray.py")
         k_src = vlib.read_src("containers.py")
-        text, tr = gen_boltz.generate(b_src, e_src, c_src, k_src)
+        reach = {f: vlib.read_src(f) for f in gen_boltz.REACHABLE}
+        text, tr = gen_boltz.generate(b_src, e_src, c_src, k_src, reach)
         ctx.write("Boltz.v", text, sources=dict(
-            files=["src/WallGo/boltzmann.py", "src/WallGo/equationOfMotion.py",
-                   "src/WallGo/collisionArray.py", "src/WallGo/containers.py"],
-            sha=[vlib.sha(b_src), vlib.sha(e_src), vlib.sha(c_src), vlib.sha(k_src)],
+            files=["src/WallGo/equationOfMotion.py"] + ["src/WallGo/" + f for f in sorted(reach)],
+            sha=[vlib.sha(e_src)] + [vlib.sha(reach[f]) for f in sorted(reach)],
             spans=tr.spans))
+        ctx.log("copy hooks in reachable classes: %s; deltaF uses: %s" % (
+            tr.hooks or "none", [(m, u) for m, u, _, _ in tr.duses if u == "URaw"] or "all ok"))
         ctx.log("setBackground: copy kind %s, boost on %s, boost rebinds only %s" % (
             tr.bg["kind"], tr.bg["target"], tr.bg["rebinds"]))
-        ctx.log("derivative facts:", [(m, t, p, d) for m, t, p, d, _, _ in tr.dfacts])
+        ctx.log("derivative facts:", [(m, t, p, d, al) for m, t, p, d, _, _, al in tr.dfacts])
         ctx.log("FD cross-check: copy kind %s, ops %s, changeBasis in place %s" % (
             tr.fd["kind"], tr.fd["ops"], tr.fd["inplace"]))
     except pyrx.TranslateError as e:
@@ -600,27 +782,51 @@ def run(ctx):
     # --- direct validation on the real code (runs while coqc works) ----------------------
     try:
         kinds = ["T", "v", "f", "all", "hom"]
+        # (M, N, particles, kind, variant overrides)
+        variants = [dict(cmult=None), dict(v0=None), dict(grid="Grid3Scales"), dict(nfields=2),
+                    dict(grid="Uniform"), dict(cmult=None, nfields=2, v0=None),
+                    dict(massless=True), dict(dvmid=0.05)]
         if ctx.quick:
-            plan = [(6, 3, nP, k) for nP in (1, 2) for k in kinds] + \
-                   [(8, 5, nP, k) for nP in (1, 2) for k in ("all", "T")]
+            plan = [(6, 3, nP, k, {}) for nP in (1, 2) for k in kinds] + \
+                   [(8, 5, nP, k, {}) for nP in (1, 2) for k in ("all", "T")] + \
+                   [(6, 3, 3, "all", {}), (6, 3, 1, "hom", dict(dvmid=0.05))] + \
+                   [(6, 3, 1 + i % 2, ("all", "T", "v")[i % 3], v) for i, v in enumerate(variants)]
         else:
-            plan = [(M, N, nP, k) for (M, N) in ((6, 3), (8, 5), (10, 5), (7, 3), (12, 3))
+            plan = [(M, N, nP, k, {}) for (M, N) in ((6, 3), (8, 5), (10, 5), (7, 3), (12, 3))
                     for nP in (1, 2) for k in kinds for _ in range(2)] + \
-                   [(M, N, nP, k) for (M, N, nP) in ((14, 7, 1), (14, 7, 2), (20, 5, 2),
-                                                     (24, 9, 1), (40, 3, 2))
-                    for k in ("all", "T", "v")]
+                   [(M, N, nP, k, {}) for (M, N, nP) in ((14, 7, 1), (14, 7, 2), (20, 5, 2),
+                                                         (24, 9, 1), (40, 3, 2))
+                    for k in ("all", "T", "v")] + \
+                   [(M, N, 3, k, {}) for (M, N) in ((6, 3), (8, 5)) for k in ("all", "hom")] + \
+                   [(M, N, 1 + i % 3, k, v) for (M, N) in ((6, 3), (8, 5), (12, 3))
+                    for i, v in enumerate(variants) for k in ("all", "T", "v", "f", "hom")]
         nfam = 0
-        for (M, N, nP, kind) in plan:
-            case = rand_case(rng, M, N, nP, kind)
+        for (M, N, nP, kind, var) in plan:
+            case = rand_case(rng, M, N, nP, kind, **var)
             try:
                 check_family(case, report)
             except Exception as ex:
                 ctx.log(traceback.format_exc())
                 report("solver raised %r" % ex, dict(check="family", case=case), "raises")
-            ctx.count("family_4bases_fd", case, bucket="%s/P%d/%dx%d" % (kind, nP, M, N))
+            ctx.count("family_4bases_fd", case, bucket="%s/P%d/%dx%d%s" % (
+                kind, nP, M, N, "".join("/" + k for k in sorted(var))))
             nfam += 1
             if nfam <= 2:
                 ctx.sample(dict(family=case))
+        # production sizes: thousands of unknowns
+        prod = [(22, 11, 1, [("Cardinal", "Chebyshev"), ("Cardinal", "Cardinal")])]
+        if not ctx.quick:
+            prod = [(22, 11, 1, None), (30, 11, 1, [("Cardinal", "Chebyshev"),
+                                                     ("Chebyshev", "Chebyshev")])]
+        for (M, N, nP, bases) in prod:
+            case = rand_case(rng, M, N, nP, "all")
+            try:
+                check_production(case, report, bases)
+            except Exception as ex:
+                ctx.log(traceback.format_exc())
+                report("solver raised %r" % ex, dict(check="production", case=case,
+                                                     bases=bases), "raises")
+            ctx.count("family_production_size", case, bucket="%dx%d" % (M, N))
         for kind in ("T", "v", "f", "all"):
             for rep in range(ctx.n(1, 4)):
                 case = rand_case(rng, 0, rng.choice([3, 5]) if not ctx.quick else 3,
@@ -633,20 +839,41 @@ def run(ctx):
                 except Exception as ex:
                     report("finite-difference solver raised %r" % ex,
                            dict(check="fd", case=case), "raises")
-        for kind in ("T", "v", "f", "all"):
-            for rep in range(ctx.n(1, 4)):
-                case = rand_case(rng, 0, 3, 1 + (rep + (kind == "all")) % 2, kind)
-                try:
-                    e = check_physics(case, report)
-                    ctx.count("physics_source_vs_liouville_feq", case, bucket=kind)
-                    if kind == "all" and rep == 0:
-                        ctx.sample(dict(physics_case=case, rel_diff=e))
-                except Exception as ex:
-                    ctx.log(traceback.format_exc())
-                    report("physics check raised %r" % ex, dict(check="physics", case=case),
-                           "raises")
+        phys = [(kind, {}, "Spectral", 40, 5e-3) for kind in ("T", "v", "f", "all")
+                for _ in range(ctx.n(1, 4))] + \
+               [("all", dict(nfields=2), "Spectral", 40, 5e-3),
+                ("all", dict(v0=None), "Spectral", 40, 5e-3),
+                ("all", dict(massless=True, dvmid=-0.04), "Spectral", 40, 5e-3),
+                ("v", dict(), "Finite Difference", 80, 8e-3),
+                ("all", dict(), "Finite Difference", 80, 8e-3)]
+        if not ctx.quick:
+            phys += [(k, dict(nfields=2, v0=None), m, M, t) for k in ("T", "v", "f", "all")
+                     for (m, M, t) in (("Spectral", 40, 5e-3), ("Finite Difference", 80, 8e-3))]
+        for rep, (kind, var, mode, M, tol) in enumerate(phys):
+            case = rand_case(rng, 0, 3, 1 + rep % 2, kind, **var)
+            try:
+                e = check_physics(case, report, M, mode, tol)
+                ctx.count("physics_source_vs_liouville_feq", case,
+                          bucket="%s/%s" % (kind, mode.split()[0]))
+                if kind == "all" and rep < 8 and not var:
+                    ctx.sample(dict(physics_case=case, mode=mode, rel_diff=e))
+            except Exception as ex:
+                ctx.log(traceback.format_exc())
+                report("physics check raised %r" % ex, dict(check="physics", case=case, M=M,
+                                                            mode=mode, tol=tol), "raises")
+        for rep in range(ctx.n(2, 8)):
+            var = [dict(), dict(cmult=None), dict(nfields=2), dict(v0=None)][rep % 4]
+            case = rand_case(rng, rng.choice([6, 8]), rng.choice([3, 5]), 1 + rep % 3,
+                             rng.choice(["all", "v", "T"]), **var)
+            try:
+                check_reuse(case, report)
+            except Exception as ex:
+                ctx.log(traceback.format_exc())
+                report("re-use check raised %r" % ex, dict(check="reuse", case=case), "raises")
+            ctx.count("history_reuse", case)
         for rep in range(ctx.n(2, 6)):
-            case = rand_case(rng, rng.choice([6, 8]), 3, 1 + rep % 2, rng.choice(["v", "all"]))
+            case = rand_case(rng, rng.choice([6, 8]), 3, 1 + rep % 2, rng.choice(["v", "all"]),
+                             **(dict(v0=None) if rep % 2 else {}))
             try:
                 check_background(case, report)
             except Exception as ex:
@@ -655,7 +882,8 @@ def run(ctx):
                        "raises")
             ctx.count("background_aliasing", case)
         for rep in range(ctx.n(2, 8)):
-            case = rand_case(rng, rng.choice([6, 8, 10]), rng.choice([3, 5]), 1 + rep % 2, "all")
+            case = rand_case(rng, rng.choice([6, 8, 10]), rng.choice([3, 5]), 1 + rep % 2, "all",
+                             **([{}, dict(cmult=None), dict(v0=None, nfields=2)][rep % 3]))
             try:
                 check_history(case, report)
             except Exception as ex:
@@ -676,24 +904,36 @@ def run(ctx):
             elif k == 0:
                 ctx.sample(dict(corr=info, values=rows[:4]))
     ctx.cov["rule"] = (
-        "family: one physical problem (random Fermion/Boson particles with random couplings, "
+        "family: one physical problem (1-3 random Fermion/Boson particles, random couplings, "
         "random diagonally dominant collision tensor, tanh wall varying T / v / field / all / "
-        "nothing) solved in the four (basisM,basisN) combinations and in finite-difference "
-        "mode: residual, homogeneous => 0, deltaF at 25 off-grid points and all Deltas equal "
-        "across bases, assembled-operator factorisation and its three per-factor hypotheses; "
-        "fd: source and Liouville(test function) FD vs spectral at M=10,20,40; history: "
-        "spectral / real EOM.getBoltzmannFiniteDifference twice / spectral; physics: source vs "
-        "-(K1 d/dchi - K2 d/drz) f_eq with K1,K2 read off the code's Liouville array and f_eq "
-        "the code's _feq on analytic profiles (M=40, rel 5e-3); certified_eval: "
-        "entries of source, operator, liouville, collision of the running code vs the "
-        "generated Coq kernels by interval arithmetic (rel 1e-9); distinct = distinct case "
-        "dictionary")
+        "nothing; variants: collisionMultiplier 0.5/3, v0 > 0, Grid3Scales, uniform spacing, two "
+        "fields, a massless particle, velocityMid off the profile mean, setters in three orders) "
+        "solved in the four (basisM,basisN) combinations and in finite-difference mode: residual "
+        "(1e-11), double precision, homogeneous => 0, EVERY output of getDeltas() and of "
+        "getDeltas(deltaF) (deltaF at 25 off-grid points, 4 Deltas, truncationError, both "
+        "linearisation criteria) equal across bases (1e-9) and between the two call forms "
+        "(1e-12), argument not mutated, assembled-operator factorisation and its per-factor "
+        "hypotheses, zero row sums of both d/dchi matrices, cond(matrix(basis)) < 1e8; "
+        "production: the same residual/outputs comparison at M=22 (30), N=11 (2100 / 2900 "
+        "unknowns); fd: source and Liouville(test function) FD vs spectral at M=10,20,40; "
+        "physics: Liouville coefficients read off the code vs dchi/dxi gamma_w (pz - vw E) "
+        "(1e-9) and dchi/dxi drz/dpz gamma_w/2 dm2/dchi, source vs the analytic -L[f_eq] with "
+        "the code's _feq (spectral M=40 rel 5e-3, finite differences M=80 rel 8e-3); history: "
+        "spectral / real EOM.getBoltzmannFiniteDifference twice / spectral (all outputs), FD "
+        "result vs an independent FD solver; reuse: one solver through bg1 -> homogeneous -> "
+        "bg2 -> bg1 vs fresh solvers (bitwise); background aliasing; certified_eval: entries of "
+        "source, operator, liouville, collision of the running code vs the generated Coq kernels "
+        "by interval arithmetic (rel 1e-9); distinct = distinct case dictionary")
     ctx.assumptions += [
-        "np.linalg.solve returns the solution of a non-singular system (validated: residual)",
+        "np.linalg.solve returns the solution of a non-singular system (validated: residual "
+        "1e-11 up to 2900 unknowns; the call itself is pinned by an AST fact)",
         "Polynomial.derivMatrix(basis)[1:-1] = derivMatrix(Cardinal)[1:-1] @ matrix(basis), "
         "matrix(Cardinal) = identity, CollisionArray.changeBasis contracts the two polynomial "
         "axes with matrix(basis) (validated on every family)",
-        "copy.deepcopy copies the CollisionArray reachable from the solver (validated: history)"]
+        "the finite-difference d/dchi matrix of findiff has zero row sums (validated); the "
+        "spectral one is C16's model of _cardinalDeriv (proved there to be exact on constants)",
+        "copy.deepcopy is structural for classes without copy hooks (AST fact: none of the "
+        "classes in %s defines one; validated: history, reuse)" % ", ".join(gen_boltz.REACHABLE)]
 
 
 def replay(rep):
@@ -707,6 +947,11 @@ def replay(rep):
     kind = rep.get("check")
     if kind == "family":
         check_family(case, report)
+    elif kind == "production":
+        check_production(case, report, [tuple(b) for b in rep["bases"]] if rep.get("bases")
+                         else None)
+    elif kind == "reuse":
+        check_reuse(case, report)
     elif kind == "fd":
         check_fd(case, report)
     elif kind == "history":
@@ -714,6 +959,7 @@ def replay(rep):
     elif kind == "background":
         check_background(case, report)
     elif kind == "physics":
-        check_physics(case, report, rep.get("M", 40))
+        check_physics(case, report, rep.get("M", 40), rep.get("mode", "Spectral"),
+                      rep.get("tol", 5e-3))
     print("reproduced" if any(k == rep.get("key") for k, _ in msgs) else "not reproduced")
     return 1 if msgs else 0
